@@ -490,6 +490,10 @@ def xyz_reader(reader_class: ReadAndProcessOnTheFly) -> List[np.ndarray]:
     if reader_class.file_object is None:
         return trajectory
     for i, line in enumerate(iter(reader_class.file_object.readline, "")):
+        # a line without its terminator is still being written: the frame
+        # is not ready, return the (possibly empty) ready frames
+        if not line.endswith("\n"):
+            return trajectory
         spl = line.split()
         if i == 0 and spl:
             N_atoms = int(spl[0])
